@@ -14,27 +14,33 @@ set_option linter.unusedVariables false
 namespace Grenad.SrcTie
 open Grenad Grenad.R Grenad.Gen
 
-/-- `varint_encode32(&mut buf, v)` returns exactly the model's bytes, for every `u32` and every
-    scratch buffer of at least 5 bytes (the only call sites pass `[0; 10]`). -/
-theorem src_varint_encode32 (bs : List UInt8) (v : Nat) (hb : 5 ≤ bs.length) :
-    (varint_encode32 bs v).map Prod.fst = .ok (Varint.encode32 v) := by
+/-- `varint_encode32(&mut buf, v)` returns exactly the model's bytes, for every value and every
+    scratch buffer of at least 5 bytes (the only call sites pass `[0; 10]`); the scratch buffer keeps
+    its length. -/
+theorem src_varint_encode32_full (bs : List UInt8) (v : Nat) (hb : 5 ≤ bs.length) :
+    ∃ bs', varint_encode32 bs v = .ok (Varint.encode32 v, bs') ∧ bs'.length = bs.length := by
   obtain ⟨b0, b1, b2, b3, b4, rest, rfl⟩ : ∃ b0 b1 b2 b3 b4 rest, bs = b0 :: b1 :: b2 :: b3 :: b4 :: rest := by
     match bs, hb with
     | b0 :: b1 :: b2 :: b3 :: b4 :: rest, _ => exact ⟨_, _, _, _, _, _, rfl⟩
   unfold varint_encode32 Varint.encode32
   by_cases h7 : v < 2 ^ 7
-  · simp [shl, setIdx, sliceTo, castU, bind, Except.bind, pure, Except.pure, Except.map, h7]
+  · simp [shl, setIdx, sliceTo, castU, bind, Except.bind, pure, Except.pure, h7]
   by_cases h14 : v < 2 ^ 14
-  · simp [shl, shr, setIdx, sliceTo, castU, bind, Except.bind, pure, Except.pure, Except.map, h7, h14,
+  · simp [shl, shr, setIdx, sliceTo, castU, bind, Except.bind, pure, Except.pure, h7, h14,
       or128_mod256, Nat.shiftRight_eq_div_pow]
   by_cases h21 : v < 2 ^ 21
-  · simp [shl, shr, setIdx, sliceTo, castU, bind, Except.bind, pure, Except.pure, Except.map, h7, h14, h21,
+  · simp [shl, shr, setIdx, sliceTo, castU, bind, Except.bind, pure, Except.pure, h7, h14, h21,
       or128_mod256, Nat.shiftRight_eq_div_pow]
   by_cases h28 : v < 2 ^ 28
-  · simp [shl, shr, setIdx, sliceTo, castU, bind, Except.bind, pure, Except.pure, Except.map, h7, h14, h21, h28,
+  · simp [shl, shr, setIdx, sliceTo, castU, bind, Except.bind, pure, Except.pure, h7, h14, h21, h28,
       or128_mod256, Nat.shiftRight_eq_div_pow]
-  · simp [shl, shr, setIdx, sliceTo, castU, bind, Except.bind, pure, Except.pure, Except.map, h7, h14, h21, h28,
+  · simp [shl, shr, setIdx, sliceTo, castU, bind, Except.bind, pure, Except.pure, h7, h14, h21, h28,
       or128_mod256, Nat.shiftRight_eq_div_pow]
+
+theorem src_varint_encode32 (bs : List UInt8) (v : Nat) (hb : 5 ≤ bs.length) :
+    (varint_encode32 bs v).map Prod.fst = .ok (Varint.encode32 v) := by
+  obtain ⟨bs', h, _⟩ := src_varint_encode32_full bs v hb
+  simp [h, Except.map]
 
 /-- the body of the `for` loop of `varint_length_packed`, as the translator emits it -/
 def lpBody (d : List UInt8) {α} (_ : α) (s : Nat) : M (ForInStep Nat) :=
